@@ -19,6 +19,7 @@ RULE = ('Hypothesis-drawn well-sorted scripts from the typed generator (Core, In
         '(Constants), existing variables (ReplaceByVariable), fresh variables '
         '(IntroduceFreshVariable) - the replacement has the true sort of the node it '
         'replaces and, for a variable, is a nullary symbol in scope there.  '
+        'The mutator instances are created once per shard and asked about every script in turn (as ddSMT asks one instance about every intermediate input); a case records the first and the previous script as its history.  '
         'Non-trivial: a script containing a compound term whose sort differs from its '
         'first argument\'s sort or a width-changing operator; distinct = distinct '
         'script.')
@@ -78,8 +79,39 @@ class _S:
     pass
 
 
-def check_script(dd, case, acc):
+def instances(dd):
+    """The mutator instances of one 'run': ddSMT creates its mutators once and asks the same
+    instances about every intermediate input, so the check keeps them across cases too."""
+    rbv = dd.mutators_core.ReplaceByVariable()
+    rbv.repl_mode = 'inc'
+    rbv2 = dd.mutators_core.ReplaceByVariable()
+    rbv2.repl_mode = 'dec'
+    return dict(consts=dd.mutators_core.Constants(), rbv=rbv, rbv2=rbv2,
+                ifv=dd.mutators_smtlib.IntroduceFreshVariable())
+
+
+def warm(dd, insts, cmds):
+    """Ask the instances about every node of an earlier input (replay of a history)."""
+    exprs = [model.to_node(dd, c) for c in cmds]
+    dd.smtlib.collect_information(exprs)
+    for node in dd.nodes.dfs(exprs):
+        for m in insts.values():
+            try:
+                if m.filter(node):
+                    if hasattr(m, 'mutations'):
+                        list(m.mutations(node))
+                    if hasattr(m, 'global_mutations'):
+                        list(m.global_mutations(node, exprs))
+            except Exception:  # noqa
+                pass
+
+
+def check_script(dd, case, acc, insts=None):
     smt = dd.smtlib
+    if insts is None:
+        insts = instances(dd)
+        for h in case.get('history', []):
+            warm(dd, insts, h)
     exprs = [model.to_node(dd, c) for c in case['cmds']]
     smt.collect_information(exprs)
     s = _S()
@@ -88,12 +120,7 @@ def check_script(dd, case, acc):
     s.funs = set(case['funs'])
     s.defs = {k: ([None] * v[0], tup(v[1])) for k, v in case['defs'].items()}
     dts = set(s.dts)
-    consts_m = dd.mutators_core.Constants()
-    rbv = dd.mutators_core.ReplaceByVariable()
-    rbv.repl_mode = 'inc'
-    rbv2 = dd.mutators_core.ReplaceByVariable()
-    rbv2.repl_mode = 'dec'
-    ifv = dd.mutators_smtlib.IntroduceFreshVariable()
+    consts_m, rbv, rbv2, ifv = insts['consts'], insts['rbv'], insts['rbv2'], insts['ifv']
     stats = dict(positions=0, sort_known=0, width_known=0, replacements=0)
     nontrivial = False
     for path, sort_, head, scope, differs in case['truth']:
@@ -194,12 +221,21 @@ def shard(ctx, acc):
     total = 6000 if ctx.quick else 500000
     env.set_options(dd, ['in.smt2', 'out.smt2', '/bin/true'])
 
+    insts = instances(dd)
+    hist = []
+
     def body(s):
         text = model.render_list(s.cmds)
         case = case_of(s)
+        # the instances have seen earlier inputs: the first and the latest go into the case
+        case['history'] = [h for h in hist]
+        if not hist:
+            hist.append(s.cmds)
+        else:
+            hist[1:] = [s.cmds]
         try:
             with guard.cpu_limit(10.0):
-                nt, stats = check_script(dd, case, acc)
+                nt, stats = check_script(dd, case, acc, insts)
         except guard.CpuTimeout:
             acc.skip('cpu-limit')
             return
@@ -238,4 +274,4 @@ def soundness_sample(ctx, acc):
 def replay(case, acc, ctx):
     dd = env.load()
     env.set_options(dd, ['in.smt2', 'out.smt2', '/bin/true'])
-    check_script(dd, case, acc)
+    check_script(dd, case, acc)  # fresh instances, warmed with case['history']
